@@ -269,6 +269,12 @@ class Executor:
         if isinstance(node.value, ast.Constant):
             return [Outcome('normal', st)]           # docstring
         if self.is_dropped_call(node.value):
+            # the call is dropped, but its arguments are evaluated eagerly by Python: a local read there must be bound
+            # (UnboundLocalError otherwise), and a name that exists nowhere is a NameError
+            for n in ast.walk(node.value):
+                if isinstance(n, ast.Name) and isinstance(n.ctx, ast.Load):
+                    if n.id in st.unbound and n.id in st.locals:
+                        self.lookup(st, n.id, n)
             return [Outcome('normal', st)]
         self.ev(st, node.value)
         return [Outcome('normal', st)]
@@ -348,7 +354,10 @@ class Executor:
         ty = self.ptype(node.annotation)
         if v.kind == 'any' and ty.kind != 'any':
             v = v.with_ty(ty)
-            # A-ANNOT: a local annotation of the real code is trusted as a type assumption
+            # A-ANNOT: a local annotation of the real code is trusted as a type assumption (listed: it excludes e.g. a None
+            # value of a non-Optional annotation)
+            self.ctx.note(f'A-ANNOT: `{ast.unparse(node.target)}: {ast.unparse(node.annotation)}` trusted for a value of unknown type '
+                          f'({self.frame.func.qualname if self.frame.func else "?"})')
             st.assume_type(v)
         elif v.kind == 'list' and ty.kind == 'list' and v.ty.args and v.ty.args[0].kind == 'any':
             v = v.with_ty(ty)
@@ -1458,10 +1467,39 @@ class Executor:
                 return True
         return False
 
+    def in_slice(self, st, op, item: V, rn):
+        """`x in xs[a:b]` / `not in`: membership stated over the positions of the ORIGINAL list (no shifted copy of the
+        slice: `exists q. a' <= q < b' and xs[q] == x`), which is what contracts quantify over as well."""
+        if not isinstance(op, (ast.In, ast.NotIn)) or not isinstance(rn, ast.Subscript) or not isinstance(rn.slice, ast.Slice):
+            return None
+        sl = rn.slice
+        if sl.step is not None or len(self.frames) == 0 or item is None:
+            return None
+        base = self.ev(st, rn.value)
+        if base.kind != 'list':
+            return None
+        n = st.list_len(base)
+
+        def bound(e, default):
+            if e is None:
+                return default
+            v = as_int(self.ev(st, e))
+            v = z3.If(v < 0, v + n, v)
+            return z3.If(v < 0, z3.IntVal(0), z3.If(v > n, n, v))
+        lo, hi = bound(sl.lower, z3.IntVal(0)), bound(sl.upper, n)
+        q = z3.Int(fresh_name('q'))
+        c = z3.Exists([q], z3.And(q >= z3.simplify(lo), q < z3.simplify(hi), z3.Select(st.list_elems(base), q) == self.box(st, item)))
+        return v_bool(c if isinstance(op, ast.In) else z3.Not(c))
+
     def _e_Compare(self, st, node):
         left = self.ev(st, node.left)
         res = []
         for op, rn in zip(node.ops, node.comparators):
+            direct = self.in_slice(st, op, left, rn) if len(node.ops) == 1 else None
+            if direct is not None:
+                res.append(direct)
+                left = None
+                continue
             right = self.ev(st, rn)
             res.append(self.compare(st, op, left, right, node))
             left = right
